@@ -75,6 +75,11 @@ func catalog(p ScenParams) *WSpec {
 		j := ProcSpec{Name: "j", Kind: kind, Ins: []string{"a", "b"}, Outs: []OutSpec{{Name: "out", Pattern: "{i:a}.j"}}}
 		w.Procs = []ProcSpec{src, simpleProc("p", kind), simpleProc("q", kind), simpleProc("r", kind), j}
 		w.Edges = []Edge{fe("src", "out", "p", "in"), fe("p", "out", "q", "in"), fe("p", "out", "r", "in"), fe("q", "out", "j", "a"), fe("r", "out", "j", "b")}
+	case "g6b": // two-in-port join fed by a processed branch and a source: pairing depends on emission order
+		src2 := ProcSpec{Name: "src2", Kind: "src", Items: srcItems("jn", p.Items)}
+		j := ProcSpec{Name: "j", Kind: kind, Ins: []string{"a", "b"}, Outs: []OutSpec{{Name: "out", Pattern: "{i:a}.j"}}}
+		w.Procs = []ProcSpec{src, src2, simpleProc("p", kind), j}
+		w.Edges = []Edge{fe("src", "out", "p", "in"), fe("p", "out", "j", "a"), fe("src2", "out", "j", "b")}
 	case "g7": // two-output task feeding two consumers
 		pp := ProcSpec{Name: "p", Kind: kind, Ins: []string{"in"}, Outs: []OutSpec{{Name: "o1", Pattern: "{i:in}.o1"}, {Name: "o2", Pattern: "{i:in}.o2"}}}
 		w.Procs = []ProcSpec{src, pp, simpleProc("q", kind), simpleProc("r", kind)}
@@ -133,6 +138,29 @@ func catalog(p ScenParams) *WSpec {
 		panic("unknown graph " + p.Graph)
 	}
 	switch p.Extra {
+	case "subdir": // outputs of p inside not-yet-existing sub-directories
+		if ps := w.proc("p"); ps != nil {
+			for i := range ps.Outs {
+				ps.Outs[i].Pattern = "sub/dir/{i:in|basename}." + ps.Outs[i].Name
+			}
+		}
+	case "writeidiom": // the documented Go-function idiom: task.OutIP(..).Write(..)
+		if ps := w.proc("p"); ps != nil {
+			ps.Kind = "func"
+			ps.WriteIdiom = true
+		}
+	case "emptyparam": // a task that cannot be formed: empty parameter value
+		if ps := w.proc("p"); ps != nil {
+			ps.FromStr["a"][len(ps.FromStr["a"])-1] = ""
+		}
+	case "badpath": // ... invalid character in the output path
+		if ps := w.proc("p"); ps != nil {
+			ps.FromStr["a"][len(ps.FromStr["a"])-1] = "b c"
+		}
+	case "missingtag": // ... tag placeholder without a tag
+		if ps := w.proc("p"); ps != nil {
+			ps.CmdSuffix = " -- x={t:nosuchtag}"
+		}
 	case "barrier":
 		for i := range w.Procs {
 			if w.Procs[i].Kind == "func" || w.Procs[i].Kind == "cmd" {
